@@ -1,10 +1,11 @@
 //! @property C17
 //! @enc Topic::calculate_partition_id_by_messages_key_hash, Topic::get_next_partition_id, Topic::get_partitions_count, Topic::has_partitions, Topic::append_messages (partitioning-kind dispatch up to the partition lookup), utils::hash::calculate_32 (XxHash32::oneshot)
-//! @bounds partitions_count any u32 >= 1 (map length made symbolic through the model's length knob); key hash any u32; round-robin cursor any u32; explicit partition id any u32, value length any u8 <= 8; real xxhash32 on keys of <= 4 bytes
+//! @bounds partitions_count any u32 >= 1 (map length made symbolic through the model's length knob); key hash any u32; round-robin cursor any u32; explicit partition id any u32, value length any u8 <= 8; real xxhash32 on keys of <= 4 bytes with 3 partitions
 //! @model AHashMap -> fixed array map (only len()/get() are used here)
 //! @out spread under concurrent senders (atomic cursor races)
-use super::util::*;
-use crate::streaming::topics::messages::verif_hook as th;
+use super::su::*;
+use super::util::system_config;
+use crate::verif::sync::streaming::topics::messages::verif_hook as th;
 use iggy::error::IggyError;
 use iggy::messages::send_messages::{Partitioning, PartitioningKind};
 use iggy::utils::byte_size::IggyByteSize;
@@ -17,22 +18,24 @@ pub fn any_hash_stub(_data: &[u8]) -> u32 {
     kani::any()
 }
 
-fn topic_with_count(count: u32) -> crate::streaming::topics::topic::Topic {
-    let cfg = Arc::new(system_config());
-    let st = storage(&cfg);
-    let c = counters();
-    let mut t = new_topic(&cfg, &st, &c, MaxTopicSize::Unlimited, IggyExpiry::NeverExpire);
-    t.partitions.verif_set_len_override(Some(count as usize));
-    t
+macro_rules! topic_with_count {
+    ($t:ident, $count:expr) => {
+        typed_arc!(__cfg: crate::configs::system::SystemConfig = system_config());
+        let __st = storage(&__cfg);
+        let __c = counters();
+        let mut $t = new_topic(&__cfg, &__st, &__c, MaxTopicSize::Unlimited, IggyExpiry::NeverExpire);
+        $t.partitions.verif_set_len_override(Some($count as usize));
+        core::mem::forget(__st);
+    };
 }
 
 // H1: for EVERY hash value and every partition count >= 1 the chosen id is an existing partition
-harness! {
-  #[kani::stub(crate::streaming::utils::hash::calculate_32, crate::verif::c17_partitioning::any_hash_stub)]
+harness_sync! {
+  #[kani::stub(crate::verif::sync::streaming::utils::hash::calculate_32, crate::verif::c17_partitioning::any_hash_stub)]
   fn c17_key_hash_in_range() {
     let count: u32 = kani::any();
     kani::assume(count >= 1);
-    let t = topic_with_count(count);
+    topic_with_count!(t, count);
     let id = th::partition_id_by_key(&t, &[1, 2, 3]);
     assert!(id >= 1 && id <= count);
     kani::cover!(id == count && count > 1, "hash multiple of count maps to the last partition");
@@ -40,10 +43,9 @@ harness! {
 } }
 
 // H2: same key, same count => same partition (real xxhash32, keys up to 4 bytes)
-harness! { #[kani::unwind(6)] fn c17_key_hash_deterministic() {
-    let count: u32 = kani::any();
-    kani::assume(count >= 1 && count <= 1000);
-    let t = topic_with_count(count);
+harness_sync! { #[kani::unwind(6)] fn c17_key_hash_deterministic() {
+    let count: u32 = 3;
+    topic_with_count!(t, count);
     let len: usize = kani::any();
     kani::assume(len >= 1 && len <= 4);
     let key: [u8; 4] = kani::any();
@@ -52,7 +54,7 @@ harness! { #[kani::unwind(6)] fn c17_key_hash_deterministic() {
     assert!(a == b);
     assert!(a >= 1 && a <= count);
     // and it is the documented function of the key: xxhash32(seed 0) mod count, 0 -> count
-    let h = crate::streaming::utils::hash::calculate_32(&key[..len]);
+    let h = crate::verif::sync::streaming::utils::hash::calculate_32(&key[..len]);
     let expect = if h % count == 0 { count } else { h % count };
     assert!(a == expect);
     kani::cover!(a != 1, "not always the first partition");
@@ -60,10 +62,10 @@ harness! { #[kani::unwind(6)] fn c17_key_hash_deterministic() {
 } }
 
 // H3: round robin from an arbitrary cursor (also a stale one after partitions were removed)
-harness! { fn c17_round_robin_in_range() {
+harness_sync! { fn c17_round_robin_in_range() {
     let count: u32 = kani::any();
     kani::assume(count >= 1);
-    let t = topic_with_count(count);
+    topic_with_count!(t, count);
     let cursor: u32 = kani::any();
     kani::assume(cursor >= 1 && cursor < u32::MAX);
     t.current_partition_id.store(cursor, Ordering::SeqCst);
@@ -82,8 +84,8 @@ harness! { fn c17_round_robin_in_range() {
 } }
 
 // H3b: `count` consecutive balanced sends visit every partition exactly once (count = 3)
-harness! { #[kani::unwind(5)] fn c17_round_robin_visits_all_3() {
-    let t = topic_with_count(3);
+harness_sync! { #[kani::unwind(5)] fn c17_round_robin_visits_all_3() {
+    topic_with_count!(t, 3u32);
     let cursor: u32 = kani::any();
     kani::assume(cursor >= 1 && cursor <= 3);
     t.current_partition_id.store(cursor, Ordering::SeqCst);
@@ -101,8 +103,10 @@ harness! { #[kani::unwind(5)] fn c17_round_robin_visits_all_3() {
 } }
 
 // H4: explicit partition id: malformed value -> error, unknown id -> PartitionNotFound; nothing stored
-harness! { #[kani::unwind(6)] fn c17_explicit_id_dispatch() {
-    let t = topic_with_count(2); // two partitions reported, none actually present in the map
+harness_sync! {
+  #[kani::stub(crate::verif::sync::streaming::partitions::partition::Partition::append_messages, crate::verif::su::cut_partition_append)]
+  #[kani::unwind(6)] fn c17_explicit_id_dispatch() {
+    topic_with_count!(t, 2u32); // two partitions reported, none actually present in the map
     let pid: u32 = kani::any();
     let length: u8 = kani::any();
     kani::assume(length <= 8);
@@ -110,7 +114,7 @@ harness! { #[kani::unwind(6)] fn c17_explicit_id_dispatch() {
     value.extend_from_slice(&[0, 0, 0, 0]);
     let p = Partitioning { kind: PartitioningKind::PartitionId, length, value };
     typed_msg_vec!(msgs, message(1, vec![0]));
-    let r = block_on(t.append_messages(IggyByteSize::from(42u64), p, msgs, None));
+    let r = t.append_messages(IggyByteSize::from(42u64), p, msgs, None);
     match r {
         Ok(()) => assert!(false, "send to a partition that does not exist was accepted"),
         Err(IggyError::InvalidNumberEncoding) => assert!(length != 4),
